@@ -5,7 +5,7 @@ from .common import VERIF
 CLAIMED = ["c02", "c03", "c04", "c05", "c07", "c09", "c10", "c11", "c13", "c14", "c15", "c16", "c17", "c18", "c19"]
 
 LEVEL_TEXT_EXTRA = {
-    "C03": ("Four of the five parsers. WebSocket frame decoder (Kani/CBMC): every byte string of 0..16 bytes (every header, every claimed length up to 2^64-1) returns a value or an error, never panics, overflows or exceeds its loop bounds, and never requests more payload memory than 64 KiB beyond the input (allocation recorder under Kani, tracking allocator natively); Base64 decoder on every ASCII string of 0..9 symbols and with a 2-byte character never panics. HTTP request parser (symbolic execution of the MIR of Request::from_stream, z3): for malformed-request templates — arbitrary ASCII garbage of 1..4 bytes at the start line, inside and after header lines, multi-byte UTF-8 characters at every slicing position, invalid UTF-8, Content-Length claims with symbolic digits and huge values, end of stream anywhere — every path returns a value or an error without panicking and every vec![0; n] stays within 64 KiB + 16 x the bytes supplied. JSON parser: no panic on every Unicode string of 0..4 characters (thorough: 5). NOT decided: the HTTP response parser, message assembly beyond C11, the configuration parser beyond C15's kernel, stack depth and wall-clock time.",
+    "C03": ("The five parsers (the configuration parser only through C15's kernel). WebSocket frame decoder (Kani/CBMC): every byte string of 0..16 bytes (every header, every claimed length up to 2^64-1) returns a value or an error, never panics, overflows or exceeds its loop bounds, and never requests more payload memory than 64 KiB beyond the input (allocation recorder under Kani, tracking allocator natively); Base64 decoder on every ASCII string of 0..9 symbols and with a 2-byte character never panics. HTTP request parser (symbolic execution of the MIR of Request::from_stream, z3): for malformed-request templates — arbitrary ASCII garbage of 1..4 bytes at the start line, inside and after header lines, multi-byte UTF-8 characters at every slicing position, invalid UTF-8, Content-Length claims with symbolic digits and huge values, end of stream anywhere — every path returns a value or an error without panicking and every vec![0; n] stays within 64 KiB + 16 x the bytes supplied. HTTP response parser (same construction over Response::from_stream / parse_chunk): status-line, header-line and chunk-size garbage, lines without a colon, multi-byte characters at slicing positions, Content-Length and chunk-size claims — no panic, bounded allocation. JSON parser: no panic on every Unicode string of 0..4 characters (thorough: 5). NOT decided: message assembly beyond C11, the configuration parser beyond C15's kernel, stack depth and wall-clock time.",
             "Trusted: Kani/CBMC; reference models refs/ws.rs and refs/b64.rs; the from_elem recorder stub."),
     "C13": ("Symbolic execution of the MIR of the recursive-descent JSON parser (Value::parse and every Parser method, recursion inlined) on inputs of 0..5 characters (thorough: 6) over ALL Unicode scalar values: z3 shows that the parser never panics and that it accepts a string if and only if it is an RFC 8259 JSON text (recogniser written as formulas over the same characters); the depth-limit logic is checked through parse_max_depth with limits 0 and 1. The executor is validated on every run against the natively compiled parser on 281 documents; counterexamples are replayed natively and judged by an independent reference parser. NOT decided: documents longer than the bound (two-member objects, \\u escapes), the value tree and member order, numeric values, the serialiser and the round trip.",
             "Trusted: the MIR executor and its std models (f64::from_str as its documented grammar, u16::from_str_radix, char::from_u32, decode_utf16, Peekable<Chars>, String/Vec), z3, the RFC 8259 recogniser in vlib/props/c13.py."),
@@ -33,7 +33,7 @@ LEVEL_TEXT = {
             "Trusted: Kani/CBMC; the stub contract (the matcher is a pure predicate of pattern and text — C05 decides what it computes); allocator-model diagnostics of Kani are not verdicts (DESIGN §3.1)."),
     "C05": ("Symbolic execution of wildcard_match's MIR (dumped from the current tree) with pattern/text as sequences of symbolic Unicode scalar values; for every pattern length <= 7 and text length <= 10 (thorough: 12 x 18) z3 shows that the function cannot panic and returns exactly what the glob recurrence ('*' = any sequence, every other character only itself) prescribes. The executor is validated on every run against the natively compiled function on the repository's own test pairs plus 200 seeded pairs incl. 2- and 4-byte characters, and one exported query is cross-checked with cvc5.",
             "Trusted: the MIR executor and its std models (str::chars/Peekable/Option, listed in the evidence), z3; UTF-8 decoding is modelled at the level of chars."),
-    "C07": ("Bounded model checking (Kani->CBMC->cadical) of the real status-code tables for every u16: exactly the modelled codes are accepted, code<->variant conversions are mutually inverse and every reason phrase is a registered one. Only this table clause of C07 is claimed; serialisation layout, response parser, chunked decoding and client are outside (not encodable, see DESIGN §5 C07).",
+    "C07": ("Bounded model checking (Kani->CBMC->cadical) of the real status-code tables for every u16: exactly the modelled codes are accepted, code<->variant conversions are mutually inverse and every reason phrase is a registered one. Only this table clause of C07 is claimed; serialisation layout, response parser, chunked decoding and client are outside (not encodable, see DESIGN §5 C07). Response parser (symbolic execution of the MIR of Response::from_stream / parse_chunk, z3): conforming-response templates with symbolic status digits, header values, bodies and chunk bytes are parsed into exactly the version, status, typed headers in order and payload sent, for Content-Length framing and chunked coding (reported as a plain body with its length); NOT decided there: read segmentation (sampled natively), trailers/extensions, the client and redirect following.",
             "Trusted: Kani/CBMC, the phrase table in kani/src/c07.rs."),
     "C09": ("Bounded model checking of LoadBalancer::select_target as an inductive step for 1..4 targets: round-robin returns targets[index] and advances index modulo N from any index < N; random mode returns a member of the set from any seed < 2^33 with no arithmetic overflow and keeps seed < modulus. Only the target-selection clause of C09 is claimed; everything on the network is outside.",
             "Trusted: Kani/CBMC; Rust's &mut exclusivity for the 'concurrent requests' part (select_target is only reachable through a Mutex); clock stub for Lcg::new."),
